@@ -31,53 +31,63 @@ func vPanicSite(stack string) string {
 	return "unknown"
 }
 
-// vC06R: a twin of the current pre-state that went through Marshal/Unmarshal (a node restored from a
+// vTwinSlot: a twin of the current pre-state that went through Marshal/Unmarshal (a node restored from a
 // snapshot).  Every entry is applied to it as well: state that Unmarshal rebuilds differently (nil maps,
-// missing derived fields) shows as a panic only there.
-var vC06R struct {
+// missing derived fields) shows only there.  One slot per monitor.
+type vTwinSlot struct {
 	hist  []VEntry // kept referenced, so that its address identifies the work item
 	bytes []byte
 	inst  *VInst
 }
 
-func vC06Restored(c *VCtx) {
+// apply applies the entry of c to the restored twin and returns the twin and the step (nil when the pre-state
+// cannot be saved -- C03's finding).  The twin is rebuilt from the saved pre-state after an entry that changed
+// the state.
+func (t *vTwinSlot) apply(c *VCtx) (*VInst, *VStep) {
 	if len(c.hist) == 0 {
-		return
+		return nil, nil
 	}
-	if len(vC06R.hist) != len(c.hist) || &vC06R.hist[0] != &c.hist[0] {
-		vC06R.hist, vC06R.inst, vC06R.bytes = c.hist, nil, nil
+	if len(t.hist) != len(c.hist) || &t.hist[0] != &c.hist[0] {
+		t.hist, t.inst, t.bytes = c.hist, nil, nil
 		if b, err := VerifBuild(c.hist).Srv.Marshal(0); err == nil {
-			vC06R.bytes = b
+			t.bytes = b
 		}
 	}
-	if vC06R.bytes == nil {
-		return // a state that cannot be saved is C03's finding
+	if t.bytes == nil {
+		return nil, nil
 	}
-	if vC06R.inst == nil {
+	if t.inst == nil {
 		j := VerifNewServer()
-		if _, err := j.Unmarshal(vC06R.bytes); err != nil {
-			vC06R.bytes = nil
-			return
+		if _, err := j.Unmarshal(t.bytes); err != nil {
+			t.bytes = nil
+			return nil, nil
 		}
-		vC06R.inst = &VInst{Srv: j, Hist: append([]VEntry(nil), c.hist...)}
-		c.Count("c06_restored_twins_built")
+		t.inst = &VInst{Srv: j, Hist: append([]VEntry(nil), c.hist...)}
+		c.Count("restored_twins_built")
 	}
-	st := vC06R.inst.Apply(c.Step.Entry)
-	c.Count("c06_entries_checked_on_a_restored_node")
-	if st.Panic != nil {
-		if c.Step.Panic == nil {
-			msg := fmt.Sprint(st.Panic)
-			if len(msg) > 80 {
-				msg = msg[:80]
-			}
-			c.Report(fmt.Sprintf("panic in %s (%s) on a node restored from a snapshot", vPanicSite(st.Stack), msg),
-				fmt.Sprintf("entry %s panics when the state it is applied to went through Marshal/Unmarshal first: %v", c.Step.Entry.String(), st.Panic))
-		}
-		vC06R.inst = nil
+	in := t.inst
+	st := in.Apply(c.Step.Entry)
+	if st.Panic != nil || c.Changed {
+		t.inst = nil // the next entry starts from the pre-state again
+	}
+	return in, &st
+}
+
+var vC06Twin vTwinSlot
+
+func vC06Restored(c *VCtx) {
+	_, st := vC06Twin.apply(c)
+	if st == nil {
 		return
 	}
-	if c.Changed {
-		vC06R.inst = nil // the entry changed the state: the next entry starts from the pre-state again
+	c.Count("c06_entries_checked_on_a_restored_node")
+	if st.Panic != nil && c.Step.Panic == nil {
+		msg := fmt.Sprint(st.Panic)
+		if len(msg) > 80 {
+			msg = msg[:80]
+		}
+		c.Report(fmt.Sprintf("panic in %s (%s) on a node restored from a snapshot", vPanicSite(st.Stack), msg),
+			fmt.Sprintf("entry %s panics when the state it is applied to went through Marshal/Unmarshal first: %v", c.Step.Entry.String(), st.Panic))
 	}
 }
 
